@@ -395,8 +395,9 @@ def rule_R7(ck):
             I.call_method(tc, "__enter__", [])
             try:
                 I.call_method(P, "wait", [])
-            except Raised:
-                pass
+            except Raised as ex_:
+                if ex_.exc.name != "NotReadyError":
+                    raise              # giving up is the only way an attempt may end early
         finally:
             I.call_method(tc, "__exit__", [None, None, None])
         I.call_method(K3, "settle", [E])
@@ -420,8 +421,9 @@ def rule_R7(ck):
         I.call_method(tc, "__enter__", [])
         try:
             I.call_method(P, "wait", [])
-        except Raised:
-            pass
+        except Raised as ex_:
+            if ex_.exc.name != "NotReadyError":
+                raise
         I.call_method(tc, "__exit__", [None, None, None])
         I.call_method(K2, "settle", [D])
         return I.call(I.module_get("deferred", "wait"), [P], {})
@@ -620,6 +622,47 @@ def rule_R9(ck):
                 ck.violation(n, "the closing walk over the symbol table happens before the image has been waited", construct="final read before wait")
 
 
+
+def rule_try_depth(ck):
+    """try mode nests (a best estimate asked for while another one is being computed): not_ready() gives up while ANY try is
+    open and only then; leaving an inner try must not end the outer one, and after the last one the mode is off again."""
+    repo = ck.repo
+    I = eager_interp(repo)
+    I.summaries = {}
+    where = "deferred::TryCompute.__enter__"
+
+    def thunk():
+        tc = I.module_get("deferred", "try_compute")
+        nr = I.module_get("deferred", "not_ready")
+        out = []
+
+        def probe():
+            try:
+                I.call(nr, [], {})
+                return "goes on"
+            except Raised as ex:
+                return ex.exc.name
+        out.append(("outside", probe()))
+        I.call_method(tc, "__enter__", [])
+        out.append(("one open", probe()))
+        I.call_method(tc, "__enter__", [])
+        out.append(("two open", probe()))
+        I.call_method(tc, "__exit__", [None, None, None])
+        out.append(("inner closed, outer open", probe()))
+        I.call_method(tc, "__exit__", [None, None, None])
+        out.append(("all closed", probe()))
+        return out
+    ps = I.explore(thunk)
+    ck.instance("try-depth", {"not_ready() at each nesting stage": ps[0].value if ps and ps[0].kind == "return" else repr(ps)}, fn=where)
+    if len(ps) != 1 or ps[0].kind != "return":
+        return ck.incomplete(where, "nested try_compute blocks", ps)
+    want = [("outside", "goes on"), ("one open", "NotReadyError"), ("two open", "NotReadyError"), ("inner closed, outer open", "NotReadyError"), ("all closed", "goes on")]
+    if ps[0].value != want:
+        bad = next(g for g, w in zip(ps[0].value, want) if g != w)
+        ck.violation(where, f"not_ready() with {bad[0]}: {bad[1]}; expected {dict(want)[bad[0]]}. Stages: {ps[0].value} - inside a try an unknown symbol is 'not yet', not an 'undefined-symbol' error; "
+                            "outside it is final", construct="try-mode nesting depth")
+
+
 def run(ck):
     ck.run_rule("C03.R1", "defer before complaining (not_ready dominates the undefined-symbol report / promise raise)", 3, rule_R1)
     ck.run_rule("C03.R2", "memoise only success; cycle detection; awaiting flag reset", 3, rule_R2)
@@ -634,6 +677,7 @@ def run(ck):
     ck.run_rule("G11.res", "operand encoders' results that may still be unevaluated (branch offsets, immediates) are only combined with + - * or forced with wait()", 2, escape.rule_G11_results)
     ck.run_rule("G12", "definition chains of any length: lazily evaluated values do not force their operands from inside their own thunks", 6, escape.rule_G12)
     from . import c11
+    ck.run_rule("C03.try", "try mode nests: not_ready() gives up exactly while a try is open", 1, rule_try_depth)
     ck.run_rule("C03.R1u", "a name nobody defines: one error, then an integer value and no definition site (assembly goes on)", 1, c11.rule_undefined_value)
     ck.run_rule("C11.R5", "'.extern all' exports what is defined before AND after it (a definition may stand on either side)", 4, c11.rule_R5)
     from ..rules import treeimm
